@@ -34,10 +34,10 @@ RULE = (
     "(copy-on-write has to separate them); distinct = distinct (template, path1, value1, path2, value2)."
 )
 ASSUMPTIONS = [
-    "an object's state is its instance __dict__ read through getattr (frozen fields unwrapped), recursively through TreeClass/list/tuple/dict, arrays by bytes",
+    "an object's state is its instance __dict__ read through getattr (frozen fields unwrapped), recursively through TreeClass/list/tuple/dict (dictionaries compared without order, like ==), arrays by bytes",
     "documented rejections (tuple index assignment, missing attribute without create_new_ok, malformed path) are exceptions; the input must be unchanged after them as well",
 ]
-NSHARDS = 8
+NSHARDS = 16
 TEMPLATES = ["nested", "shared", "config", "source", "material", "container"]
 VALUES1 = ["scalar", "none", "list", "same", "alias", "tree"]
 
@@ -46,7 +46,7 @@ def cases(tier, seed):
     out = []
     for t in TEMPLATES:
         for s in range(NSHARDS):
-            out.append(dict(template=t, shard=s, nshards=NSHARDS, values2=["scalar"] if tier == "quick" else ["scalar", "alias"], seed=seed))
+            out.append(dict(template=t, shard=s, nshards=NSHARDS, values2=["scalar"] if tier == "quick" else ["scalar", "alias"], ops2=3 if tier == "quick" else 4, seed=seed))
     return out
 
 
@@ -56,6 +56,7 @@ def bounds(tier, seed):
         "paths": "every attribute / list index (and -1) / dict key / tuple index reachable within 4 operations, plus one new attribute and one new dict key with create_new_ok, plus malformed and missing paths",
         "values_first_update": VALUES1,
         "values_second_update": ["scalar"] if tier == "quick" else ["scalar", "alias"],
+        "second_update_paths": "every path of the intermediate object within %d operations" % (3 if tier == "quick" else 4),
         "sequence_length": 2,
         "seed": seed,
     }
@@ -171,7 +172,8 @@ def snap(o, depth=0):
     if isinstance(o, tuple):
         return ("tuple", tuple(snap(x, depth + 1) for x in o))
     if isinstance(o, dict):
-        return ("dict", tuple((repr(k), snap(v, depth + 1)) for k, v in o.items()))
+        # order-insensitive, like dict equality (pytree copies rebuild dictionaries in sorted key order)
+        return ("dict", tuple(sorted((repr(k), snap(v, depth + 1)) for k, v in o.items())))
     if hasattr(o, "dtype") and hasattr(o, "shape"):
         a = np.asarray(o)
         return ("array", str(a.dtype), tuple(a.shape), a.tobytes())
@@ -238,7 +240,7 @@ def model_update(s, ops, vs, create_ok=False):
         items.append((rk, vs))
     else:
         items[pos[0]] = (rk, vs if last else model_update(items[pos[0]][1], rest, vs, create_ok))
-    return ("dict", tuple(items))
+    return ("dict", tuple(sorted(items)))
 
 
 def paths_of(o, max_ops=4):
@@ -446,12 +448,12 @@ def run_case(case):
             if r1 is None or not out.startswith("updated"):
                 continue
             s1 = snap(r1)
-            for p2 in paths_of(r1):
+            for p2 in paths_of(r1, case.get("ops2", 4)):
                 ops2 = parse(p2)
                 for v2k in case["values2"]:
                     v2 = value_for(v2k, r1, ops2, alias)
                     meta2 = dict(meta, path2=p2, value2=v2k)
-                    _, out2 = _step(r1, p2, v2, [("intermediate", r1, s1), ("template", root, s0), ("first-value", v1, snap(v1))], states, fails, meta2)
+                    _, out2 = _step(r1, p2, v2, [("intermediate", r1, s1), ("template", root, s0)], states, fails, meta2)
                     trans += 1
                     traces += 1
                     if _shares(r1, ops1, ops2) or v2k == "alias":
